@@ -1117,6 +1117,8 @@ def account(ctx, items, exe, pid_kinds=None, inject=None):
             kinds_rel = [k for k in kinds if k in pid_kinds or k in ("probe", "heap")]
         else:
             kinds_rel = kinds
+        # the most specific finding first: "probe" (a missing record: the process did not survive the batch) says least
+        kinds_rel.sort(key=lambda k: (k in ("probe", "heap"), k))
         if kinds_rel:
             nbad += 1
             ctx.violation(sig_of(kinds_rel[0]), replay_of(it, it["script"], exe, inject))
